@@ -316,7 +316,13 @@ func (h *HttpServer) handleStreamInit(w http.ResponseWriter, r *http.Request) {
 			h.writeHttpError(w, http.StatusInternalServerError, err, nil)
 			return
 		}
-		callToken, err := h.packCallToken(callID, outputSchema, auth, streamID)
+		// A dynamic method's input schema exists only in this StreamResult;
+		// the continuation route recovers it from the call token.
+		var dynamicInput *arrow.Schema
+		if info.InputSchema == nil {
+			dynamicInput = streamResult.InputSchema
+		}
+		callToken, err := h.packCallTokenFor(callID, outputSchema, dynamicInput, auth, streamID)
 		if err != nil {
 			handlerErr = err
 			h.writeHttpError(w, http.StatusInternalServerError, err, nil)
@@ -501,6 +507,26 @@ func (h *HttpServer) handleStreamExchange(w http.ResponseWriter, r *http.Request
 	if err != nil {
 		h.writeHttpError(w, http.StatusBadRequest, err, nil)
 		return
+	}
+	// Same cast as above for a dynamic method, whose input schema was declared
+	// by the StreamResult at /init and travels with the call (the pipe
+	// transports read it from that StreamResult directly).
+	if !cancelled && info.InputSchema == nil && len(call.InputSchemaIPC) > 0 {
+		dynamicInput, schemaErr := deserializeSchema(call.InputSchemaIPC)
+		if schemaErr != nil {
+			h.writeHttpError(w, http.StatusBadRequest,
+				&RpcError{Type: "RuntimeError", Message: fmt.Sprintf("failed to recover input schema: %v", schemaErr)}, nil)
+			return
+		}
+		if !inputBatch.Schema().Equal(dynamicInput) {
+			castBatch, castErr := castRecordBatch(inputBatch, dynamicInput)
+			if castErr != nil {
+				h.writeHttpError(w, http.StatusBadRequest, castErr, nil)
+				return
+			}
+			defer castBatch.Release()
+			inputBatch = castBatch
+		}
 	}
 
 	// Rehydrate non-serializable fields if a callback is registered
